@@ -874,6 +874,9 @@ def kdt_match(x, y, K=15, distance_upper_bound=np.inf):
     from scipy import spatial
     kdt = spatial.cKDTree(y)
     D, inds = kdt.query(x, k=K, distance_upper_bound=distance_upper_bound)
+    if inds.ndim == 1:
+        # The neighbour dimension is squeezed out when K == 1
+        D, inds = D[:, None], inds[:, None]
 
     II = np.zeros_like(inds)
     selected = []
